@@ -190,6 +190,7 @@ fn valid_family() -> Vec<Case> {
         "query Q($a: Boolean!) { things { ... on User { ...F } ... on Node { ... on User { ...F @include(if: $a) } } } }\nfragment F on User { id name }",
         "query Q($a: Boolean!, $b: Boolean!) { hello @skip(if: $a) @include(if: $b) x: hello @include(if: $a) extra @skip(if: $b) }",
         "query Q($a: Boolean!, $b: Boolean!) { hello @skip(if: $a) @include(if: $b) }",
+        "query Q($a: Boolean!, $b: Boolean!) { hello @include(if: $a) ...HF @include(if: $b) user(id: 1) @skip(if: true) { id } user(id: 1) @include(if: false) { name } }\nfragment HF on Query { hello }",
         "query Q($id: ID!, $w: String!) { user(id: $id, filter: { word: $w, tags: [$w, \"lit\"] }) { id } }",
         "query Q($a: Boolean!, $b: Boolean!) { user(id: 1) { id name @include(if: $b) @skip(if: $a) } extra }",
         "query Q($a: Boolean!, $b: Boolean!, $c: Boolean!) { user(id: 1) { ... @skip(if: $a) @include(if: $b) { id } ...UF @include(if: $c) @skip(if: $a) } }\nfragment UF on User { name @skip(if: $c) }",
